@@ -1,8 +1,118 @@
-import CnlDriver.CS
-/-! `C14` driver table (stub). -/
-namespace Cnl.Drv
-open Cnl
+import CnlDriver.C13
+/-!
+`C14` driver table: the text denotes the value.  Same lines and the same model as `C13`
+(`evalCharconv`); the oracle parses the *implementation's* characters with `CnlSpec.Decimal`
+(independent of the printer) and compares with the exact value `rep · radix^exponent`:
 
-def checkC14 (_toks : List String) (_res : String) : Option Verdict := none
+* integers: the canonical numeral in the requested base — `numeralValue` = value, no leading zero;
+* scaled_integer: `decimalValue` has the sign of the value, never exceeds its magnitude and is short of it
+  by less than one unit of the last printed digit — plus, only if the exact expansion has more than 18
+  significant digits (or does not terminate), the precision allowance `|v|·(|e|+1)·100/max(significand type)`;
+  and it is exact whenever the exact expansion has at most 18 significant digits and its shortest
+  fixed or scientific text fits the buffer;
+* `fix` lines: `to_chars_static`, `to_string`, `operator<<` show the text of `to_chars` at capacity
+  (array padded with NULs), and that text denotes the value.
+-/
+namespace Cnl.Drv
+open Cnl Cnl.Charconv Cnl.Spec
+
+/-- text of a successful implementation result -/
+def implText (len : Nat) (res : String) : Option (List Char) :=
+  match parseImplTCR res with
+  | some r =>
+    match r.ok, r.ptr with
+    | true, some p => if p ≤ len then some (((r.bytes.drop 4).take len).take p) else none
+    | _, _ => none
+  | none => none
+
+def intDenotes (base : Nat) (v : Int) (text : List Char) : Bool :=
+  match numeralValue base text with
+  | some (neg, mag) =>
+    let digits := if neg then text.drop 1 else text
+    decide ((if neg then -(mag : Int) else (mag : Int)) = v) && (neg == decide (v < 0)) &&
+      (digits.head? != some '0' || digits.length == 1)
+  | none => false
+
+/-- is exactness demanded (expansion of at most 18 significant digits whose shortest text fits)? -/
+def exactDemanded (num den : Nat) (neg : Bool) (len : Nat) : Bool :=
+  match finiteExpansion num den 200 0 with
+  | some (m, x) =>
+    let (m', z) := stripZeros 200 m
+    let n := numDigits10 200 m'
+    decide (n ≤ 18) && decide ((if neg then 1 else 0) + shortestExactLen n (x + z) ≤ len)
+  | none => false
+
+def shortExpansion (num den : Nat) : Bool :=
+  match finiteExpansion num den 200 0 with
+  | some (m, _) => decide (numDigits10 200 (stripZeros 200 m).1 ≤ 18)
+  | none => false
+
+def scDenotes (T : IntTy) (e : Int) (radix : Nat) (rep : Int) (len : Nat) (text : List Char) : Bool :=
+  match decimalValue text with
+  | none => false
+  | some d =>
+    if rep = 0 then d.mant == 0 && !d.neg
+    else
+      let (num, den) := exactFrac rep.natAbs radix e
+      let short := shortExpansion num den
+      let allowNum := if short then 0 else (e.natAbs + 1) * 100
+      (d.neg == decide (rep < 0)) && d.within num den allowNum (sigTy T).max.toNat &&
+        (!(exactDemanded num den (decide (rep < 0)) len) || d.exactly num den)
+
+/-- known-defect class of C14: an expansion of at most 18 significant digits is not printed exactly because
+`descale` took a lossy division (only 64-bit and wider reps can reach it) -/
+def lossyShort (T : IntTy) (e : Int) (radix : Nat) (rep : Int) : Bool :=
+  match descale (sigTy T) rep e radix with
+  | .ok d => decide (d.lossy > 0) &&
+      (let (num, den) := exactFrac rep.natAbs radix e; shortExpansion num den)
+  | _ => false
+
+def checkC14 (toks : List String) (res : String) : Option Verdict := do
+  let (m, tag, br) ← evalCharconv toks
+  let cls := if tag.isEmpty then "" else "C14." ++ tag
+  match toks with
+  | ["int", t, base, len, v] =>
+    let T ← parseIntTy t; let base ← base.toNat?; let len ← len.toNat?; let v ← v.toInt?
+    let _ := T
+    let spec : Option Bool :=
+      if tag.isEmpty then (implText len res).map (intDenotes base v)
+      else some false   -- the most negative value produces no numeral at all
+    some { model := m, spec := spec, cls := cls, branch := br, nontrivial := spec.isSome }
+  | ["sc", t, len, rep] =>
+    let .sc T e x ← parseTyK t | none
+    let len ← len.toNat?; let rep ← rep.toInt?
+    let spec : Option Bool :=
+      if tag.isEmpty then (implText len res).map (scDenotes T e x rep len)
+      else some false
+    let cls := if cls.isEmpty && lossyShort T e x rep then "C14.lossy_rescaling_of_short_expansion" else cls
+    some { model := m, spec := spec, cls := cls, branch := br, nontrivial := spec.isSome }
+  | ["cap", _] => some { model := m, spec := none, branch := br, nontrivial := false }
+  | ["fix", t, v] =>
+    let v ← v.toInt?
+    let k ← parseTyK t
+    let good := match res.splitOn "|" with
+      | [st, s, o, tc] =>
+        (match st.splitOn ":" with
+          | n :: rest =>
+            let arr := decChars (":".intercalate rest).toList
+            let n := n.toNat?.getD 0
+            let txt := arr.take n
+            (arr.drop n).all (· == Char.ofNat 0) && decide (arr.length > n) &&
+            txt == decChars s.toList && txt == decChars o.toList &&
+            (match parseImplTCR tc with
+              | some r =>
+                let len := r.bytes.length - 8
+                implText len tc == some txt &&
+                (match k with
+                  | .int _ => intDenotes 10 v txt
+                  | .sc T e x => scDenotes T e x v len txt)
+              | none => false)
+          | _ => false)
+      | _ => false
+    let cls := match k with
+      | .sc T e x => if cls.isEmpty && lossyShort T e x v then "C14.lossy_rescaling_of_short_expansion" else cls
+      | _ => cls
+    some { model := m, spec := some good, cls := cls, branch := br }
+  | _ => none
 
 end Cnl.Drv
